@@ -50,8 +50,12 @@ BLOCK_OK = ["Line one.\nLine two.", "Para one.\n\nPara two with \"quotes\" insid
 
 
 class Gen:
-    def __init__(self, rng: random.Random, one_of: float = 0.0, size: int = 2, stress_names: float = 0.1) -> None:
+    def __init__(self, rng: random.Random, one_of: float = 0.0, size: int = 2, stress_names: float = 0.1,
+                 default_stress: bool = False) -> None:
         self.rng = rng
+        # default_stress: many input-object / list defaults whose members are null, falsy (0, false, "", [], {}) or nested —
+        # whatever builds the default's text must carry every one of them at every depth
+        self.dstress = default_stress
         self.one_of = one_of
         self.size = size
         self.stress = stress_names
@@ -146,7 +150,7 @@ class Gen:
         t = type_text
         if t.endswith("!"):
             return self.literal(t[:-1], depth, avail_inputs) if True else None
-        if self.p(0.08):
+        if self.p(0.3 if (self.dstress and depth >= 1) else 0.08):
             self.feat("default:null")
             return "null"
         if t.startswith("["):
@@ -160,6 +164,8 @@ class Gen:
             if any(i is None for i in items):
                 return None
             self.feat("default:list")
+            if "null" in items:
+                self.feat("default:list-null-item")
             return "[" + ", ".join(items) + "]"  # type: ignore
         return self.literal_nonnull(t, depth, avail_inputs)
 
@@ -175,6 +181,9 @@ class Gen:
                 return None
             self.feat("default:list")
             return "[" + ", ".join(items) + "]"  # type: ignore
+        if self.dstress and t in ("Int", "String", "Boolean", "Float") and self.p(0.4):
+            self.feat("default:falsy")
+            return {"Int": "0", "String": '""', "Boolean": "false", "Float": "0.0"}[t]
         if t == "Int":
             self.feat("default:int")
             return str(rng.choice([0, 1, -1, 42, 2147483647, -2147483648, 7]))
@@ -231,7 +240,13 @@ class Gen:
                         if required:
                             return None
                         continue
+                    if lit == "null":
+                        self.feat("default:object-null-key")
                     parts.append("%s: %s" % (fname, lit))
+            if self.dstress and len(parts) > 1 and self.p(0.5):
+                rng.shuffle(parts)  # keys in an order of their own (neither declaration order nor sorted)
+            if not parts:
+                self.feat("default:empty-object")
             self.feat("default:object" if depth == 0 else "default:nested-object")
             return "{" + ", ".join(parts) + "}"
         return None
@@ -239,7 +254,7 @@ class Gen:
     def input_type_text(self, avail_inputs: Optional[List[str]] = None) -> str:
         rng = self.rng
         pool = ["Int", "Float", "String", "Boolean", "ID"] * 2 + self.scalars * 2 + list(self.enums) * 2
-        pool += (avail_inputs if avail_inputs is not None else list(self.inputs)) * 2
+        pool += (avail_inputs if avail_inputs is not None else list(self.inputs)) * (8 if self.dstress else 2)
         return self.wrap(rng.choice(pool))
 
     def args(self, p: float = 0.45) -> str:
@@ -251,7 +266,7 @@ class Gen:
         for n in names:
             t = self.input_type_text()
             default = ""
-            if self.p(0.55):
+            if self.p(0.9 if self.dstress else 0.55):
                 lit = self.literal(t, 0, None)
                 if lit is not None and not (lit == "null" and t.endswith("!")):
                     default = " = " + lit
@@ -325,7 +340,7 @@ class Gen:
             out.append("%senum %s {\n%s\n}" % (self.desc(), n, "\n".join(lines)))
         # input objects (defaults of input fields only mention earlier input types: graphql-core cannot
         # build a schema whose input type has a default of its own type)
-        n_inputs = rng.randint(0, 1 + sz)
+        n_inputs = rng.randint(2 if self.dstress else 0, max(2, 1 + sz))
         names = [self.fresh(TYPE_NAMES) for _ in range(n_inputs)]
         for idx, n in enumerate(names):
             earlier = names[:idx]
@@ -444,6 +459,6 @@ class Gen:
         return "\n\n".join(out) + "\n"
 
 
-def make_sdl(rng: random.Random, one_of: float = 0.0, size: int = 2) -> Tuple[str, Dict[str, int]]:
-    g = Gen(rng, one_of=one_of, size=size)
+def make_sdl(rng: random.Random, one_of: float = 0.0, size: int = 2, default_stress: bool = False) -> Tuple[str, Dict[str, int]]:
+    g = Gen(rng, one_of=one_of, size=size, default_stress=default_stress)
     return g.build(), g.features
